@@ -36,7 +36,7 @@ Utf8Wire(e) == ~("enc" \in DOMAIN e) \/ e.enc = "utf-8"
 Step(e) ==
     IF e.packres # "ok" THEN Verdict("C01", "PackRaises")
     ELSE
-      LET s == IF Utf8Wire(e) THEN DecStrict(e.packed) ELSE [ok |-> TRUE, m |-> e.m] IN
+      \E s \in {IF Utf8Wire(e) THEN DecStrict(e.packed) ELSE [ok |-> TRUE, m |-> e.m]} :   \* bound once
       /\ IF s.ok THEN Check(s.m = e.m, "C03", "StrictValue")
          ELSE LET s2 == DecStrict(FixUnbind(e.packed)) IN
               IF s2.ok /\ s2.m = e.m /\ e.m.op = "unbindRequest" THEN Verdict("C03", "UnbindConstructed")
